@@ -6,6 +6,24 @@ from pyvc.values import PDict, PList, SArr, Sym, fresh_name, zint
 COLS = dict(id="int", type="int", x="real", y="real", z="real", r="real", pid="int")
 
 
+def sym_tree_fixed(S, n, name="t", frozen=True, cls=None):
+    """A Tree of exactly n nodes (concrete n) with symbolic column contents (NArr columns)."""
+    from pyvc.values import NArr
+    from swcgeom.core.swc_utils import get_names, get_types
+    from swcgeom.core.tree import Tree
+
+    cols = {}
+    for c, k in COLS.items():
+        a = NArr((n,), [S.int(f"{name}_{c}{i}") if k == "int" else S.real(f"{name}_{c}{i}") for i in range(n)], k)
+        a.frozen = frozen
+        cols[c] = a
+    nd = PDict(cols)
+    nd.frozen = frozen
+    t = S.obj(cls or Tree, ndata=nd, names=get_names(), types=get_types(), source="", comments=PList([]))
+    t.frozen = frozen
+    return t
+
+
 def sym_tree(S, name="t", frozen=True, wf=False, extra_cols=(), cls=None):
     """A Tree object whose seven columns are symbolic arrays of one symbolic length n >= 1."""
     from swcgeom.core.swc_utils import get_names, get_types
